@@ -41,14 +41,14 @@ TESTNAME=$(grep -m1 -oE 'func (Test[A-Za-z0-9_]+)' "$DEMO" | awk '{print $2}')
 cp "$DEMO" "$WT/$PKGDIR/zz_seed_demo_test.go"
 
 say "-- demonstration WITHOUT the change (must pass)"
-$GOT test -count=1 -run "^${TESTNAME}\$" "./$PKGDIR/" >> "$LOG" 2>&1; R0=$?
+$GOT test ${SEED_DEMO_FLAGS:-} -count=1 -run "^${TESTNAME}\$" "./$PKGDIR/" >> "$LOG" 2>&1; R0=$?
 say "   exit $R0"
 
 git apply "$OUT/patch.diff" >> "$LOG" 2>&1 || { say "VERDICT $NAME: patch does not apply"; exit 3; }
 say "-- build with the change"
 $GOT build ./... >> "$LOG" 2>&1 || { say "VERDICT $NAME: does not build"; exit 3; }
 say "-- demonstration WITH the change (must fail), 3 runs"
-F=0; for i in 1 2 3; do $GOT test -count=1 -run "^${TESTNAME}\$" "./$PKGDIR/" >> "$LOG" 2>&1 || F=$((F+1)); done
+F=0; for i in 1 2 3; do $GOT test ${SEED_DEMO_FLAGS:-} -count=1 -run "^${TESTNAME}\$" "./$PKGDIR/" >> "$LOG" 2>&1 || F=$((F+1)); done
 say "   failed $F of 3"
 rm -f "$WT/$PKGDIR/zz_seed_demo_test.go"
 say "-- the repository's own test suite with the change (must pass)"
